@@ -17,7 +17,7 @@ impl Prop for C14 {
         "C14"
     }
     fn rule_text(&self) -> String {
-        "case = config over every key-producing action form (plain key, output chord, multi, tap-hold variants, tap-dance, one-shot, fork, switch, chords v1/v2, unmod/unshift, use-defsrc, transparent fall-through; nested <= 3) on 1-3 layers, optionally with defoverrides (plus an 'override' population: the overridden key reached as a plain key, through transparency / use-defsrc, inside a multi or as an unmapped key); history holds 1-3 keys and injects OS repeat events at arbitrary ms, including while a tap-hold is undecided. Oracle: each repeat input produces 0 or 1 output; an output is only ever for a key that is down at the OS; if the repeated physical key is the one whose press put still-down output key(s) down, exactly one repeat is produced, for one of them (the non-modifier of a chord rather than its modifiers). non-trivial = at least one repeat output was produced; distinct = config x history hash.".into()
+        "case = config over every key-producing action form (plain key, output chord, multi, tap-hold variants, tap-dance, one-shot, fork, switch, chords v1/v2, unmod/unshift, use-defsrc, transparent fall-through; nested <= 3) on 1-3 layers, optionally with defoverrides (plus a 'sequence' population: keys held and repeated in and right after sequence mode in all three input modes; plus an 'override' population: the overridden key reached as a plain key, through transparency / use-defsrc, inside a multi or as an unmapped key); history holds 1-3 keys and injects OS repeat events at arbitrary ms, including while a tap-hold is undecided. Oracle: each repeat input produces 0 or 1 output; an output is only ever for a key that is down at the OS; if the repeated physical key is the one whose press put still-down output key(s) down, exactly one repeat is produced, for one of them (the non-modifier of a chord rather than its modifiers). non-trivial = at least one repeat output was produced; distinct = config x history hash.".into()
     }
     fn runs(&self, tier: Tier) -> u64 {
         match tier {
@@ -66,6 +66,45 @@ impl Prop for C14 {
             ops.push(Op::Gap(50));
             case.ops = ops;
             case.set("pop", "layered");
+            return case;
+        }
+        if r.chance(100) {
+            // 'sequence' population: keys held and repeated in sequence mode and right after it ended
+            // (completed, cancelled by a key that continues no sequence, or timed out): in the hidden
+            // modes the typed keys are not pressed at the OS, so they must not be repeated there
+            let mode = *r.pick(&["hidden-suppressed", "hidden-delay-type", "visible-backspaced"]);
+            let cact = *r.pick(&["c", "S-c", "b", "(multi lctl c)"]);
+            let cfg = format!(
+                "(defcfg sequence-input-mode {mode} sequence-timeout {})\n(defsrc f1 a b c)\n(deflayer l0 sldr a b {cact})\n(defvirtualkeys v0 f13)\n(defseq v0 (a b))\n",
+                *r.pick(&[60u64, 200])
+            );
+            let mut case = Case { prop: "C14".into(), seed, cfg, ..Default::default() };
+            let (f1, a, b, c) = (oscode_of("f1"), oscode_of("a"), oscode_of("b"), oscode_of("c"));
+            let mut ops = vec![Op::Press(f1), Op::Gap(3), Op::Release(f1), Op::Gap(r.range(2, 10) as u32)];
+            let mut down: Vec<u16> = vec![];
+            for _ in 0..r.range(3, 10) {
+                let roll = r.below(100);
+                if roll < 45 && !down.is_empty() {
+                    ops.push(Op::Repeat(*r.pick(&down)));
+                } else {
+                    let key = *r.pick(&[a, b, c, c]);
+                    if down.contains(&key) {
+                        ops.push(Op::Release(key));
+                        down.retain(|k| *k != key);
+                    } else {
+                        ops.push(Op::Press(key));
+                        down.push(key);
+                    }
+                }
+                ops.push(Op::Gap(*r.pick(&[5u32, 12, 30, 70, 250])));
+            }
+            for k in down {
+                ops.push(Op::Release(k));
+                ops.push(Op::Gap(3));
+            }
+            ops.push(Op::Gap(300));
+            case.ops = ops;
+            case.set("pop", "sequence");
             return case;
         }
         if r.chance(150) {
